@@ -421,4 +421,368 @@ theorem keyEqSub_noConv (T : Table) : ∀ a b, allConvKVs (fun _ => false) a = t
     | some w => simp [keyEq_noConv T v w h.1]
 end
 
+/-! ### Freezing preserves `allConv p` (for every dispatch table) -/
+
+theorem allConv_finishSeq (p : PyVal → Bool) (a : Action) (orig : PyVal) (frozen : List PyVal) (ho : allConv p orig = true)
+    (hf : allConvList p frozen = true) : allConv p (finishSeq a orig frozen) = true := by
+  cases a <;> simp [finishSeq, allConv, ho, hf]
+
+theorem allConv_finishDict (p : PyVal → Bool) (a : Action) (orig : PyVal) (frozen : KVs) (ho : allConv p orig = true)
+    (hf : allConvKVs p frozen = true) : allConv p (finishDict a orig frozen) = true := by
+  cases a <;> simp [finishDict, allConv, ho, hf]
+
+theorem allConv_freezeLeaf (p : PyVal → Bool) (T : Table) (v : PyVal) (h : allConv p v = true) : allConv p (freezeLeaf T v) = true := by
+  unfold freezeLeaf
+  split
+  · split <;> simp_all [tagged, allConv, allConvList]
+  · exact h
+
+mutual
+theorem freeze_allConv (p : PyVal → Bool) (T : Table) : ∀ v, allConv p v = true → allConv p (freeze T v) = true
+  | .num k d => by intro h; simpa [freeze] using allConv_freezeLeaf p T _ h
+  | .str _ => by intro h; simpa [freeze] using allConv_freezeLeaf p T _ h
+  | .none => by intro h; simpa [freeze] using allConv_freezeLeaf p T _ h
+  | .cls _ => by intro h; simpa [freeze] using allConv_freezeLeaf p T _ h
+  | .obj _ => by intro h; simpa [freeze] using allConv_freezeLeaf p T _ h
+  | .tensor _ => by intro h; simpa [freeze] using allConv_freezeLeaf p T _ h
+  | .conv _ _ => by intro h; simpa [freeze] using allConv_freezeLeaf p T _ h
+  | .tuple xs => by
+    intro h
+    simp only [freeze]
+    exact allConv_finishSeq p _ _ _ h (freezeList_allConv p T xs (by simpa [allConv] using h))
+  | .list xs => by
+    intro h
+    simp only [freeze]
+    exact allConv_finishSeq p _ _ _ h (freezeList_allConv p T xs (by simpa [allConv] using h))
+  | .ndarray d x => by
+    intro h
+    simp only [freeze]
+    split
+    · exact freeze_allConv p T x (by simpa [allConv] using h)
+    · exact h
+  | .dict kvs => by
+    intro h
+    simp only [freeze]
+    exact allConv_finishDict p _ _ _ h (freezeKVs_allConv p T kvs (by simpa [allConv] using h))
+  | .ns kvs => by
+    intro h
+    simp only [freeze]
+    split
+    · exact allConv_finishDict p _ _ _ (by simpa [allConv] using h) (freezeKVs_allConv p T kvs (by simpa [allConv] using h))
+    · exact h
+  | .param n d a k => by
+    intro h
+    simp only [freeze]
+    have h' := h
+    simp only [allConv, Bool.and_eq_true] at h'
+    split
+    · refine allConv_finishSeq p _ _ _ (by simp [allConv, allConvList, h'.1, h'.2]) ?_
+      have l1 := allConv_freezeLeaf p T (.str n) (by simp [allConv])
+      have l2 := allConv_freezeLeaf p T (.num .paramKind ⟨k, 0⟩) (by simp [allConv])
+      simp [allConvList, freeze_allConv p T d h'.1, freeze_allConv p T a h'.2, l1, l2]
+    · exact h
+theorem freezeList_allConv (p : PyVal → Bool) (T : Table) : ∀ xs, allConvList p xs = true → allConvList p (freezeList T xs) = true
+  | [] => by simp [freezeList, allConvList]
+  | x :: xs => by
+    intro h
+    simp only [allConvList, Bool.and_eq_true] at h
+    simp [freezeList, allConvList, freeze_allConv p T x h.1, freezeList_allConv p T xs h.2]
+theorem freezeKVs_allConv (p : PyVal → Bool) (T : Table) : ∀ kvs, allConvKVs p kvs = true → allConvKVs p (freezeKVs T kvs) = true
+  | [] => by simp [freezeKVs, allConvKVs]
+  | (k, v) :: r => by
+    intro h
+    simp only [allConvKVs, Bool.and_eq_true] at h
+    simp [freezeKVs, allConvKVs, freeze_allConv p T v h.1, freezeKVs_allConv p T r h.2]
+end
+
+/-! ### Tagged keys are equal exactly when the exact observations are -/
+
+theorem typeName_beq (k k' : NumKind) : (k.typeName == k'.typeName) = (k == k') := by
+  cases k <;> cases k' <;> decide
+
+theorem pyEqList_tagged_left (n : String) (k : NumKind) (v : Dy) : ∀ ys, pyEqList [.cls n, .num k v] (tagNumsList ys) = false
+  | [] => by simp [tagNumsList, pyEqList]
+  | [_] => by simp [tagNumsList, pyEqList]
+  | [_, y2] => by simp [tagNumsList, pyEqList, pyEq_num_tagNums]
+  | _ :: _ :: _ :: _ => by simp [tagNumsList, pyEqList]
+
+theorem pyEqList_tagged_right (n : String) (k : NumKind) (v : Dy) : ∀ xs, pyEqList (tagNumsList xs) [.cls n, .num k v] = false
+  | [] => by simp [tagNumsList, pyEqList]
+  | [_] => by simp [tagNumsList, pyEqList]
+  | [_, x2] => by simp [tagNumsList, pyEqList, pyEq_tagNums_num]
+  | _ :: _ :: _ :: _ => by simp [tagNumsList, pyEqList]
+
+mutual
+/-- On values without `ConvertibleTensor` placeholders: the tagged forms are `==` exactly when the values agree in
+structure, exact scalar types and values. -/
+theorem tag_exact : ∀ x y, noConv x = true → pyEq (tagNums x) (tagNums y) = exactEq x y
+  | .num k v, y => by
+    intro _
+    cases y with
+    | num k' v' => simp [tagNums, tagged, pyEq, pyEqList, exactEq, typeName_beq]
+    | tuple ys => simp [tagNums, tagged, pyEq, exactEq, pyEqList_tagged_left]
+    | _ => simp [tagNums, tagged, pyEq, exactEq]
+  | .str _, y => by intro _; cases y <;> simp [tagNums, tagged, pyEq, exactEq]
+  | .none, y => by intro _; cases y <;> simp [tagNums, tagged, pyEq, exactEq]
+  | .cls _, y => by intro _; cases y <;> simp [tagNums, tagged, pyEq, exactEq]
+  | .obj _, y => by intro _; cases y <;> simp [tagNums, tagged, pyEq, exactEq]
+  | .tensor _, y => by intro _; cases y <;> simp [tagNums, tagged, pyEq, exactEq]
+  | .ndarray _ _, y => by intro _; cases y <;> simp [tagNums, tagged, pyEq, exactEq]
+  | .conv _ _, y => by intro h; simp [noConv, allConv] at h
+  | .tuple xs, y => by
+    intro h
+    cases y with
+    | tuple ys => simp only [noConv, allConv] at h; simp [tagNums, pyEq, exactEq, tag_exactList xs ys h]
+    | num k v => simp [tagNums, tagged, pyEq, exactEq, pyEqList_tagged_right]
+    | _ => simp [tagNums, pyEq, exactEq]
+  | .list xs, y => by
+    intro h
+    cases y with
+    | list ys => simp only [noConv, allConv] at h; simp [tagNums, pyEq, exactEq, tag_exactList xs ys h]
+    | _ => simp [tagNums, tagged, pyEq, exactEq]
+  | .dict a, y => by
+    intro h
+    cases y with
+    | dict b => simp only [noConv, allConv] at h; simp [tagNums, pyEq, exactEq, tagNumsKVs_length, tag_exactSub a b h]
+    | _ => simp [tagNums, tagged, pyEq, exactEq]
+  | .ns a, y => by
+    intro h
+    cases y with
+    | ns b => simp only [noConv, allConv] at h; simp [tagNums, pyEq, exactEq, tagNumsKVs_length, tag_exactSub a b h]
+    | _ => simp [tagNums, tagged, pyEq, exactEq]
+  | .param n d a k, y => by
+    intro h
+    cases y with
+    | param n' d' a' k' =>
+      simp only [noConv, allConv, Bool.and_eq_true] at h
+      simp [tagNums, pyEq, exactEq, tag_exact d d' h.1, tag_exact a a' h.2]
+    | _ => simp [tagNums, tagged, pyEq, exactEq]
+theorem tag_exactList : ∀ xs ys, allConvList (fun _ => false) xs = true → pyEqList (tagNumsList xs) (tagNumsList ys) = exactEqList xs ys
+  | [], [] => by simp [tagNumsList, pyEqList, exactEqList]
+  | [], _ :: _ => by simp [tagNumsList, pyEqList, exactEqList]
+  | _ :: _, [] => by simp [tagNumsList, pyEqList, exactEqList]
+  | x :: xs, y :: ys => by
+    intro h
+    simp only [allConvList, Bool.and_eq_true] at h
+    simp [tagNumsList, pyEqList, exactEqList, tag_exact x y h.1, tag_exactList xs ys h.2]
+theorem tag_exactSub : ∀ a b, allConvKVs (fun _ => false) a = true → pyEqSub (tagNumsKVs a) (tagNumsKVs b) = exactEqSub a b
+  | [], _ => by simp [tagNumsKVs, pyEqSub, exactEqSub]
+  | (k, v) :: r, b => by
+    intro h
+    simp only [allConvKVs, Bool.and_eq_true] at h
+    simp only [tagNumsKVs, pyEqSub, exactEqSub, lookup_tagNumsKVs, tag_exactSub r b h.2]
+    cases lookupKV b k with
+    | none => rfl
+    | some w => simp [tag_exact v w h.1]
+end
+
+theorem keyEq_num_tagNums (T : Table) (k : NumKind) (v : Dy) (y : PyVal) : keyEq T (.num k v) (tagNums y) = false := by
+  cases y <;> simp [tagNums, tagged, keyEq]
+
+theorem keyEq_tagNums_num (T : Table) (k : NumKind) (v : Dy) (x : PyVal) : keyEq T (tagNums x) (.num k v) = false := by
+  cases x <;> simp [tagNums, tagged, keyEq]
+
+theorem keyEqList_tagged_left (T : Table) (n : String) (k : NumKind) (v : Dy) : ∀ ys, keyEqList T [.cls n, .num k v] (tagNumsList ys) = false
+  | [] => by simp [tagNumsList, keyEqList]
+  | [_] => by simp [tagNumsList, keyEqList]
+  | [_, y2] => by simp [tagNumsList, keyEqList, keyEq_num_tagNums]
+  | _ :: _ :: _ :: _ => by simp [tagNumsList, keyEqList]
+
+theorem keyEqList_tagged_right (T : Table) (n : String) (k : NumKind) (v : Dy) : ∀ xs, keyEqList T (tagNumsList xs) [.cls n, .num k v] = false
+  | [] => by simp [tagNumsList, keyEqList]
+  | [_] => by simp [tagNumsList, keyEqList]
+  | [_, x2] => by simp [tagNumsList, keyEqList, keyEq_tagNums_num]
+  | _ :: _ :: _ :: _ => by simp [tagNumsList, keyEqList]
+
+theorem lookup_normConvKVs (T : Table) : ∀ (b : KVs) (q : String), lookupKV (normConvKVs T b) q = (lookupKV b q).map (normConv T)
+  | [], _ => rfl
+  | (k, v) :: r, q => by
+    simp only [normConvKVs, lookupKV]
+    split <;> simp [lookup_normConvKVs T r q]
+
+theorem normConvKVs_length (T : Table) : ∀ kvs : KVs, (normConvKVs T kvs).length = kvs.length
+  | [] => rfl
+  | (_, _) :: r => by simp [normConvKVs, normConvKVs_length T r]
+
+mutual
+/-- With every scalar tagged and placeholders compared through their frozen `concrete`: two tagged values are `==`
+exactly when their exact observations (placeholders normalised by the pinned freezing) are equal. -/
+theorem key_exact (T : Table) (r : Respects T) (t : ∀ k, T.act (.num k) = .tagType) :
+    ∀ x y, flatConv x = true → keyEq T (tagNums x) (tagNums y) = exactEq (normConv pinnedTable x) (normConv pinnedTable y)
+  | .num k v, y => by
+    intro _
+    cases y with
+    | num k' v' => simp [tagNums, tagged, keyEq, keyEqList, exactEq, normConv, typeName_beq]
+    | tuple ys => simp [tagNums, tagged, keyEq, exactEq, normConv, keyEqList_tagged_left]
+    | _ => simp [tagNums, tagged, keyEq, exactEq, normConv]
+  | .str _, y => by intro _; cases y <;> simp [tagNums, tagged, keyEq, exactEq, normConv]
+  | .none, y => by intro _; cases y <;> simp [tagNums, tagged, keyEq, exactEq, normConv]
+  | .cls _, y => by intro _; cases y <;> simp [tagNums, tagged, keyEq, exactEq, normConv]
+  | .obj _, y => by intro _; cases y <;> simp [tagNums, tagged, keyEq, exactEq, normConv]
+  | .tensor _, y => by intro _; cases y <;> simp [tagNums, tagged, keyEq, exactEq, normConv]
+  | .ndarray _ _, y => by intro _; cases y <;> simp [tagNums, tagged, keyEq, exactEq, normConv]
+  | .conv c s, y => by
+    intro h
+    cases y with
+    | conv c' s' =>
+      simp only [flatConv, allConv] at h
+      have hn : noConv (freeze pinnedTable c) = true := freeze_allConv _ pinnedTable c h
+      simp [tagNums, keyEq, exactEq, normConv, freeze_factor T r t, tag_exact _ _ hn]
+    | _ => simp [tagNums, tagged, keyEq, exactEq, normConv]
+  | .tuple xs, y => by
+    intro h
+    cases y with
+    | tuple ys => simp only [flatConv, allConv] at h; simp [tagNums, keyEq, exactEq, normConv, key_exactList T r t xs ys h]
+    | num k v => simp [tagNums, tagged, keyEq, exactEq, normConv, keyEqList_tagged_right]
+    | _ => simp [tagNums, keyEq, exactEq, normConv]
+  | .list xs, y => by
+    intro h
+    cases y with
+    | list ys => simp only [flatConv, allConv] at h; simp [tagNums, keyEq, exactEq, normConv, key_exactList T r t xs ys h]
+    | _ => simp [tagNums, tagged, keyEq, exactEq, normConv]
+  | .dict a, y => by
+    intro h
+    cases y with
+    | dict b =>
+      simp only [flatConv, allConv] at h
+      simp [tagNums, keyEq, exactEq, normConv, tagNumsKVs_length, normConvKVs_length, key_exactSub T r t a b h]
+    | _ => simp [tagNums, tagged, keyEq, exactEq, normConv]
+  | .ns a, y => by
+    intro h
+    cases y with
+    | ns b =>
+      simp only [flatConv, allConv] at h
+      simp [tagNums, keyEq, exactEq, normConv, tagNumsKVs_length, normConvKVs_length, key_exactSub T r t a b h]
+    | _ => simp [tagNums, tagged, keyEq, exactEq, normConv]
+  | .param n d a k, y => by
+    intro h
+    cases y with
+    | param n' d' a' k' =>
+      simp only [flatConv, allConv, Bool.and_eq_true] at h
+      simp [tagNums, keyEq, exactEq, normConv, key_exact T r t d d' h.1, key_exact T r t a a' h.2]
+    | _ => simp [tagNums, tagged, keyEq, exactEq, normConv]
+theorem key_exactList (T : Table) (r : Respects T) (t : ∀ k, T.act (.num k) = .tagType) :
+    ∀ xs ys, allConvList noConv xs = true →
+      keyEqList T (tagNumsList xs) (tagNumsList ys) = exactEqList (normConvList pinnedTable xs) (normConvList pinnedTable ys)
+  | [], [] => by simp [tagNumsList, keyEqList, exactEqList, normConvList]
+  | [], _ :: _ => by simp [tagNumsList, keyEqList, exactEqList, normConvList]
+  | _ :: _, [] => by simp [tagNumsList, keyEqList, exactEqList, normConvList]
+  | x :: xs, y :: ys => by
+    intro h
+    simp only [allConvList, Bool.and_eq_true] at h
+    simp [tagNumsList, keyEqList, exactEqList, normConvList, key_exact T r t x y h.1, key_exactList T r t xs ys h.2]
+theorem key_exactSub (T : Table) (r : Respects T) (t : ∀ k, T.act (.num k) = .tagType) :
+    ∀ a b, allConvKVs noConv a = true →
+      keyEqSub T (tagNumsKVs a) (tagNumsKVs b) = exactEqSub (normConvKVs pinnedTable a) (normConvKVs pinnedTable b)
+  | [], _ => by simp [tagNumsKVs, keyEqSub, exactEqSub, normConvKVs]
+  | (k, v) :: rest, b => by
+    intro h
+    simp only [allConvKVs, Bool.and_eq_true] at h
+    simp only [tagNumsKVs, keyEqSub, exactEqSub, normConvKVs, lookup_tagNumsKVs, lookup_normConvKVs, key_exactSub T r t rest b h.2]
+    cases lookupKV b k with
+    | none => rfl
+    | some w => simp [key_exact T r t v w h.1]
+end
+
+/-! ### The exact observation refines the typed observation of `Props/C06.lean` -/
+
+mutual
+theorem exact_typed : ∀ x y, noConv x = true → exactEq x y = true → typedEq x y = true
+  | .num k v, y => by intro _ h; cases y <;> simp_all [exactEq, typedEq]
+  | .str _, y => by intro _ h; cases y <;> simp_all [exactEq, typedEq]
+  | .none, y => by intro _ h; cases y <;> simp_all [exactEq, typedEq]
+  | .cls _, y => by intro _ h; cases y <;> simp_all [exactEq, typedEq]
+  | .obj _, y => by intro _ h; cases y <;> simp_all [exactEq, typedEq]
+  | .tensor _, y => by intro _ h; cases y <;> simp_all [exactEq, typedEq]
+  | .ndarray _ _, y => by intro _ h; cases y <;> simp [exactEq] at h
+  | .conv _ _, y => by intro h; simp [noConv, allConv] at h
+  | .tuple xs, y => by
+    intro hn h
+    cases y with
+    | tuple ys => simp only [noConv, allConv, exactEq] at hn h; simpa [typedEq] using exact_typedList xs ys hn h
+    | _ => simp [exactEq] at h
+  | .list xs, y => by
+    intro hn h
+    cases y with
+    | list ys => simp only [noConv, allConv, exactEq] at hn h; simpa [typedEq] using exact_typedList xs ys hn h
+    | _ => simp [exactEq] at h
+  | .dict a, y => by
+    intro hn h
+    cases y with
+    | dict b =>
+      simp only [noConv, allConv, exactEq, Bool.and_eq_true] at hn h
+      simp [typedEq, h.1, exact_typedSub a b hn h.2]
+    | _ => simp [exactEq] at h
+  | .ns a, y => by
+    intro hn h
+    cases y with
+    | ns b =>
+      simp only [noConv, allConv, exactEq, Bool.and_eq_true] at hn h
+      simp [typedEq, h.1, exact_typedSub a b hn h.2]
+    | _ => simp [exactEq] at h
+  | .param n d a k, y => by
+    intro hn h
+    cases y with
+    | param n' d' a' k' =>
+      simp only [noConv, allConv, exactEq, Bool.and_eq_true] at hn h
+      simp [typedEq, h.1.1.1, h.1.1.2, exact_typed d d' hn.1 h.1.2, exact_typed a a' hn.2 h.2]
+    | _ => simp [exactEq] at h
+theorem exact_typedList : ∀ xs ys, allConvList (fun _ => false) xs = true → exactEqList xs ys = true → typedEqList xs ys = true
+  | [], [] => by simp [typedEqList]
+  | [], _ :: _ => by simp [exactEqList]
+  | _ :: _, [] => by simp [exactEqList]
+  | x :: xs, y :: ys => by
+    intro hn h
+    simp only [exactEqList, allConvList, Bool.and_eq_true] at hn h
+    simp [typedEqList, exact_typed x y hn.1 h.1, exact_typedList xs ys hn.2 h.2]
+theorem exact_typedSub : ∀ a b, allConvKVs (fun _ => false) a = true → exactEqSub a b = true → typedEqSub a b = true
+  | [], _ => by simp [typedEqSub]
+  | (k, v) :: r, b => by
+    intro hn h
+    simp only [exactEqSub, allConvKVs, Bool.and_eq_true] at hn h
+    cases hl : lookupKV b k with
+    | none => simp [hl] at h
+    | some w =>
+      simp only [hl] at h
+      simp [typedEqSub, hl, exact_typed v w hn.1 h.1, exact_typedSub r b hn.2 h.2]
+end
+
+mutual
+theorem normConv_noConv (T : Table) : ∀ v, noConv v = true → normConv T v = v
+  | .num _ _ | .str _ | .none | .cls _ | .obj _ | .tensor _ => by intro _; simp [normConv]
+  | .conv _ _ => by intro h; simp [noConv, allConv] at h
+  | .tuple xs => by intro h; simp only [noConv, allConv] at h; simp [normConv, normConvList_noConv T xs h]
+  | .list xs => by intro h; simp only [noConv, allConv] at h; simp [normConv, normConvList_noConv T xs h]
+  | .ndarray d x => by intro h; simp only [noConv, allConv] at h; simp [normConv, normConv_noConv T x h]
+  | .dict kvs => by intro h; simp only [noConv, allConv] at h; simp [normConv, normConvKVs_noConv T kvs h]
+  | .ns kvs => by intro h; simp only [noConv, allConv] at h; simp [normConv, normConvKVs_noConv T kvs h]
+  | .param n d a k => by
+    intro h
+    simp only [noConv, allConv, Bool.and_eq_true] at h
+    simp [normConv, normConv_noConv T d h.1, normConv_noConv T a h.2]
+theorem normConvList_noConv (T : Table) : ∀ xs, allConvList (fun _ => false) xs = true → normConvList T xs = xs
+  | [] => by simp [normConvList]
+  | x :: xs => by
+    intro h
+    simp only [allConvList, Bool.and_eq_true] at h
+    simp [normConvList, normConv_noConv T x h.1, normConvList_noConv T xs h.2]
+theorem normConvKVs_noConv (T : Table) : ∀ kvs, allConvKVs (fun _ => false) kvs = true → normConvKVs T kvs = kvs
+  | [] => by simp [normConvKVs]
+  | (k, v) :: r => by
+    intro h
+    simp only [allConvKVs, Bool.and_eq_true] at h
+    simp [normConvKVs, normConv_noConv T v h.1, normConvKVs_noConv T r h.2]
+end
+
+/-! ### Numbers: on normal forms structural equality is equality of the mathematical value -/
+
+theorem dy_normal_unique_aux (n m : Int) (e d : Nat) (hm : m % 2 ≠ 0) (h : n * 2 ^ (e + d + 1) = m * 2 ^ e) : False := by
+  have h2 : (2 : Int) ^ e ≠ 0 := Int.pow_ne_zero (by decide)
+  have : n * 2 ^ (d + 1) * 2 ^ e = m * 2 ^ e := by
+    rw [← h, Int.mul_assoc, ← Int.pow_add]; congr 2; omega
+  have hm' : m = n * 2 ^ (d + 1) := (Int.eq_of_mul_eq_mul_right h2 this).symm
+  apply hm
+  rw [hm', Int.pow_succ, ← Int.mul_assoc]
+  exact Int.mul_emod_left _ 2
+
 end Einx.Cache
